@@ -230,10 +230,33 @@ func ZZC13Conv() {
 
 // ZZC13Outcome: exit / panic / test outcomes for symbolic arguments.
 func ZZC13Outcome() {
-	kind := zzChoice("kind", 7)
+	kind := zzChoice("kind", 8)
 	p := &zzPlat{}
 	ev := NewEvaluator(p)
 	switch kind {
+	case 7: // how the run ends decides the result, whatever happened before: a failed (or passed) test does not mask a later exit, panic or run-time panic
+		before := []string{"", "test 1 2\n", "test true\n", "test 1 2\ntest \"a\" \"b\"\n"}[zzChoice("before", 4)]
+		end := zzChoice("end", 4)
+		src := before + "print \"a\"\n" + []string{"exit 3\n", "panic \"boom\"\n", "x := [1]\nprint x[5]\n", "print (rand 0)\n"}[end] + "print \"b\"\n"
+		err := ev.Run(src)
+		var ee ExitError
+		var pe PanicError
+		switch end {
+		case 0:
+			zzAssert(err != nil && errors.As(err, &ee) && int(ee) == 3, "C13 outcome: exit n ends the run with status n, also after a failed test")
+		case 1:
+			zzAssert(err != nil && errors.As(err, &pe) && string(pe) == "boom", "C13 outcome: panic ends the run with its message, also after a failed test")
+		default:
+			zzAssert(err != nil && errors.Is(err, ErrPanic) && !errors.As(err, &ee), "C13 outcome: a run-time panic ends the run as a panic, also after a failed test")
+		}
+		last := ""
+		for _, t := range p.trace {
+			if t == "print:a\n" || t == "print:b\n" {
+				last = t
+			}
+		}
+		zzAssert(last == "print:a\n", "C13 outcome: nothing of the program runs after exit / panic")
+		zzReach("outcome-seq")
 	case 6: // test want got msg: a three-argument message is printed as is
 		msgs := []string{"plain", "100% sure", "%v and %d", "a %s b", ""}
 		msg := msgs[zzChoice("msg", len(msgs))]
